@@ -23,6 +23,11 @@ CHECKS = {
     note="Lean kernel + standard axioms; RECV_SIZE not modelled (a short recv is just another chunking); call-level independence is established by the reader theorems plus the metamorphic run on the real exchange loops; server sends non-negative sizes.",
     technique="Lean 4 proof (induction over the recv schedule, first-occurrence lemmas) + correspondence + metamorphic segmentation enumeration",
     ref="§6 C03"),
+ "C06": dict(
+    text="Lean theorems over the plan-driven model of _connect/close (every config, every plan of socket-API failures, any number of addresses, any sequence of connects and closes): C06_no_leak, C06_failed_connect_leaves_none, C06_at_most_one_open, C06_timeouts_ordered, C06_io_only_via_tls_wrapper, C06_fallback_uses_later_address (+ all-fail and no-fallback-after-connect-failure), C06_sequence_no_leak / _at_every_moment / _closes_well_ordered, C06_recovers_after_failure; the pre-fix stale-error leak is proved as a counterexample. Tied to /repo by enumerating all connect-phase plans with <= 2 (3) faults for TCP(1..3 addresses)/UNIX/TLS x no_delay x keepalive with the event log compared to the model, and a socket-ledger monitor (created/closed/current, timeout in force at every I/O, TLS wrapper) over single/double faults at every socket-API occurrence of a multi-call scenario.",
+    note="partial: OS descriptors are ids in a ledger; close() is assumed not to raise inside _connect; send/recv failures are covered by the monitor and by C01's exchange model, not by the connect model; UNIX sockets ignore tls_context/no_delay (as the code does).",
+    technique="Lean 4 proof (symbolic evaluation of the address loop + log invariants over call sequences) + exhaustive small-plan correspondence + ledger monitor",
+    ref="§6 C06"),
  "C08": dict(
     text="Lean theorems over a micro-step interleaving model of ObjectPool (any number of threads, any programs over use/fail/quit/clear, every interleaving, every reachable state): C08_mutex, C08_held_by_at_most_one, C08_no_duplicates_and_capacity, C08_no_internal_error, C08_no_deadlock, C08_quiescent_accounting, C08_closed_at_most_once; the socket-leak clause is proved only as C08_no_socket_leak_partial (no clear() racing with a holder) with the counterexample schedule proved (open finding). Tied to /repo by (K) exact event-sequence equality of every sequential branch of the real pool with the model and (S) a deterministic scheduler that explores pre-emption-bounded interleavings of real threads over the real pool.py, judges the invariants on the real objects and validates every interleaved event trace as a run of the model.",
     note="partial: interleaving granularity is the source line (opcodes sampled), the GIL and threading.Lock are trusted; the scheduler is search support and trace source, not a proof; open finding C08-clear-vs-holder.",
